@@ -464,3 +464,30 @@ def read_bundled(path):
     z = zipfile.ZipFile(path)
     name = z.namelist()[0]
     return z.read(name).decode('utf-8', errors='replace')
+
+
+# ------------------------------------------------------------------------------------------------
+# wall-clock guard for calls into the implementation (the writer's topological sort spins for ever
+# on a dependency cycle; a reader loop could too)
+# ------------------------------------------------------------------------------------------------
+class Timeout(Exception):
+    pass
+
+
+class time_limit:
+    def __init__(self, seconds):
+        self.seconds = seconds
+
+    def __enter__(self):
+        import signal
+
+        def handler(signum, frame):
+            raise Timeout('call exceeded %s s' % self.seconds)
+        self._old = signal.signal(signal.SIGALRM, handler)
+        signal.setitimer(signal.ITIMER_REAL, self.seconds)
+
+    def __exit__(self, *a):
+        import signal
+        signal.setitimer(signal.ITIMER_REAL, 0)
+        signal.signal(signal.SIGALRM, self._old)
+        return False
